@@ -380,6 +380,19 @@ func mutations(b base, desc protoreflect.MessageDescriptor, thorough bool) []inp
 				flipped := append([]byte{}, n.Val...)
 				flipped[0] ^= 0x80
 				gen("set "+paths[i]+"=first-bit-flipped", map[int]edit{i: {replace: flipped}})
+				// same length, different content: the last bit flipped (an encoded curve
+				// point becomes an off-curve point, a scalar an adjacent scalar, …) and
+				// the whole payload zeroed / set to ff behind its first byte
+				last := append([]byte{}, n.Val...)
+				last[len(last)-1] ^= 0x01
+				gen("set "+paths[i]+"=last-bit-flipped", map[int]edit{i: {replace: last}})
+				zeros := append([]byte{}, n.Val...)
+				ffs := append([]byte{}, n.Val...)
+				for k := 1; k < len(zeros); k++ {
+					zeros[k], ffs[k] = 0, 0xff
+				}
+				gen("set "+paths[i]+"=zeros-behind-first-byte", map[int]edit{i: {replace: zeros}})
+				gen("set "+paths[i]+"=ff-behind-first-byte", map[int]edit{i: {replace: ffs}})
 			}
 			gen("set "+paths[i]+"=one-byte-longer", map[int]edit{i: {replace: append(append([]byte{}, n.Val...), 0)}})
 			if thorough && parent[i] < 0 || thorough && len(all) <= 24 {
